@@ -6,6 +6,7 @@
 From Coq Require Import ZArith List.
 From GoIpa Require Import Model.Alg Model.Pippenger Model.Precomp Proofs.AlgLaws Proofs.IPAProofs
   Proofs.PippengerProofs Proofs.MsmProofs Proofs.PrecompProofs.
+From GoIpa Require Model.FpSqrt Proofs.ZqField.
 Import ListNotations.
 Open Scope Z_scope.
 
@@ -69,3 +70,12 @@ Print Assumptions C05_commit_linear.
 Example C05_example_recoding :
   pc_digits 8 0xffff = ([-1; 0; 1; 0; 0; 0; 0; 0; 0; 0; 0; 0; 0; 0; 0; 0; 0; 0; 0; 0; 0; 0; 0; 0; 0; 0; 0; 0; 0; 0; 0; 0], 0).
 Proof. vm_compute. reflexivity. Qed.
+
+(* the scalar-side premises of the theorems above hold for the concrete scalar field *)
+Theorem C05_concrete_scalar_premises :
+  (forall a b, fofz FpSqrt.fro (a + b) = fadd FpSqrt.fro (fofz FpSqrt.fro a) (fofz FpSqrt.fro b))
+  /\ (forall a b, fofz FpSqrt.fro (a * b) = fmul FpSqrt.fro (fofz FpSqrt.fro a) (fofz FpSqrt.fro b))
+  /\ fofz FpSqrt.fro 1 = f1 FpSqrt.fro
+  /\ FieldLaws FpSqrt.fro.
+Proof. exact (conj (proj1 ZqField.fro_fofz_morphism) (conj (proj1 (proj2 ZqField.fro_fofz_morphism)) (conj (proj2 (proj2 ZqField.fro_fofz_morphism)) ZqField.fr_field_laws))). Qed.
+Print Assumptions C05_concrete_scalar_premises.
